@@ -5,12 +5,13 @@ Exit 1 while it reproduces."""
 import os
 import sys
 import tempfile
+from datetime import datetime
 import numpy as np
 from dliswriter import DLISFile
 
 
 def build(with_rejected_call):
-    df = DLISFile(); lf = df.add_logical_file(); lf.add_origin('O', file_set_number=1)
+    df = DLISFile(); lf = df.add_logical_file(); lf.add_origin('O', file_set_number=1, creation_time=datetime(2020, 1, 2, 3, 4, 5))
     ch = lf.add_channel('A', data=np.arange(3.0))
     lf.add_frame('F', channels=(ch,))
     if with_rejected_call:
